@@ -24,11 +24,19 @@ KB == << Fact(Cx("q", <<a>>)), Fact(Cx("q", <<b>>)), Fact(Cx("r", <<b>>)), Fact(
          Clause(Cx("pa", <<X>>), Call(Cx("qa", <<X>>))), Fact(Cx("pa", <<Atom("stop")>>)), Fact(Cx("qa", <<Atom("one")>>)),
          Clause(Cx("pb", <<X, Y>>), AndG(<<Call(Cx("gen", <<X>>)), Call(Cx("chk", <<X, Y>>)), UnifyG(Y, Atom("done"))>>)),
          Fact(Cx("gen", <<IntT(1)>>)), Fact(Cx("gen", <<IntT(2)>>)), Fact(Cx("chk", <<V("$A"), V("$B")>>)),
-         Clause(Cx("pc", <<X, Y>>), AndG(<<Call(Cx("q", <<X>>)), Call(Cx("chk", <<Y, W>>)), Call(Cx("r", <<Y>>))>>)) >>
+         Clause(Cx("pc", <<X, Y>>), AndG(<<Call(Cx("q", <<X>>)), Call(Cx("chk", <<Y, W>>)), Call(Cx("r", <<Y>>))>>)),
+         (* predicates without any variable, with cuts: between the requests of such queries a THIRD query may be built *)
+         (* (nothing of a search without variables can collide with the restarted id counter)                          *)
+         Fact(Cx("r0", <<>>)), Fact(Cx("r0", <<>>)), Fact(Cx("a0", <<>>)), Fact(Cx("c0", <<>>)), Fact(Cx("c0", <<>>)), Fact(Cx("b0", <<>>)),
+         Clause(Cx("pz", <<>>), AndG(<<CutG, Call(Cx("r0", <<>>))>>)),
+         Clause(Cx("pw", <<>>), AndG(<<AndG(<<Call(Cx("a0", <<>>)), Call(Cx("c0", <<>>))>>), CutG, Call(Cx("b0", <<>>))>>)), Fact(Cx("pw", <<>>)),
+         Clause(Cx("pv", <<>>), OrG(<<Call(Cx("c0", <<>>)), AndG(<<CutG, Call(Cx("r0", <<>>))>>)>>)) >>
+Prop == {Cx("pz", <<>>), Cx("pw", <<>>), Cx("pv", <<>>), Cx("r0", <<>>)}
 Special == {Cx("pa", <<Z>>), Cx("pb", <<Z, W>>), Cx("pc", <<Z, W>>)}
 Others  == {Cx("p", <<Z>>), Cx("n", <<Z>>), Cx("q", <<Z>>), Cx("pa", <<Atom("stop")>>)}
 Pairs == {<<x, y>> : x \in Special, y \in Special \cup Others} \cup {<<x, y>> : x \in Others, y \in Special}
          \cup (IF Thorough THEN {<<x, y>> : x \in Others, y \in Others} ELSE {<<Cx("p", <<Z>>), Cx("p", <<Z>>)>>})
+         \cup {<<x, y>> : x \in Prop, y \in Prop}
 
 Init == \E pr \in Pairs : IInit(KB, pr[1], pr[2])
 Next == INext
@@ -48,6 +56,7 @@ RECURSIVE PackSegs(_)
 PackSegs(ss) == IF ss = <<>> THEN <<>>
                 ELSE <<[out |-> Head(ss).out, some |-> Head(ss).some, ans |-> PackSeq(Head(ss).ans)]>> \o PackSegs(Tail(ss))
 Case == [ t |-> "interleave", slice |-> Slice, prog |-> PackProg(iprog), qa |-> Pack(iqa), qb |-> Pack(iqb),
+          rebuild |-> (iqa \in Prop /\ iqb \in Prop),      \* a third (ground) query is built before every request
           schedule |-> isched, expa |-> PackSegs(ObsA), expb |-> PackSegs(ObsB), path |-> <<"AskA", "AskB">> ]
 Emit == IDone => PrintT(<<"CASE", ToJson(Case)>>)
 
